@@ -532,8 +532,11 @@ Definition run_stream (v : val) : val :=
                       let ores1 := map (fun o => match o with VL (r :: _) => r | x => x end) ores in
                       let wrap := map (fun r => VL [r]) in
                       let nonpoll := fun (rs : list val) => map snd (filter (fun p => match fst p with GzP _ => false | _ => true end) (combine es rs)) in
+                      (* byte 9 of a gzip member is the OS field of its header (RFC 1952: informational) *)
+                      let norm_os := fun (b : bytes) => if 10 <=? lenN b then firstn 9 b ++ 0 :: skipn 10 b else b in
                       let (mb, mk) := received (wrap mres) in
                       let (ob, ok) := received (wrap ores1) in
+                      let mb := norm_os mb in let ob := norm_os ob in
                       (* a history that did not reach a terminal event on both sides: how much has arrived by its
                          last poll depends on the framing, so only prefix-compatibility is required of the bytes *)
                       let bytes_agree := if (negb (mk =? 0)) && (negb (ok =? 0)) then beq_bytes mb ob
